@@ -27,3 +27,9 @@ fn k_to_float_scalar() {
     core::mem::forget(r3);
     core::mem::forget(r4);
 }
+
+#[cfg(test)]
+mod playback {
+    use super::*;
+    include!("/verif/.cache/playback/std_to_float.rs");
+}
